@@ -72,8 +72,11 @@ func mkNum(k int, label string) (any, float64) {
 		x := exactUint(label)
 		return x, float64(x)
 	case 10:
-		x := float32(verif.IntRange(label, -(1<<24), 1<<24)) / 4
-		return x, float64(x)
+		// any finite float32: a float64 that the conversion to float32 leaves unchanged
+		w := verif.F64(label)
+		x := float32(w)
+		verif.Assume(verif.All(w == w, w > -3.5e38, w < 3.5e38, float64(x) == w))
+		return x, w
 	default:
 		x := verif.F64(label)
 		verif.Assume(verif.All(x == x, x > -math.MaxFloat64, x < math.MaxFloat64))
